@@ -430,19 +430,19 @@ theorem P.frameAddr_ext (p : P) (hg : StrInv p.gstrings) (t : Nat) (a : AddrSpec
     split
     · exact Ext.refl p
     · rename_i pr _
-      have hra := resolveAddr_ext p.libs pr.maps a
+      have hra := resolveAddr_ext p.libs (effMaps p.kmaps pr.maps a) a
       split
       · exact Ext.refl p
       · exact Ext.refl p
       · rename_i libs addr hr
-        have hl : libs = (resolveAddr p.libs pr.maps a).1 := by rw [hr]
+        have hl : libs = (resolveAddr p.libs (effMaps p.kmaps pr.maps a) a).1 := by rw [hr]
         obtain ⟨g1, g2⟩ := P.hexString_get { p with libs := libs } addr hg
         simp only [P.hexString] at g1 g2 ⊢
         have e1 : Ext p { p with libs := libs, gstrings := (p.gstrings.indexFor (hexStr addr)).1 } :=
           Ext.libs_gstr p libs _ (hl ▸ hra.1) (hl ▸ hra.2) g2
         refine e1.trans (P.internFrame_ext _ t th th _ _ hth (.glob _ _ (.refl _) g1) (NsExt.refl _))
       · rename_i libs rel lib hr
-        have hl : libs = (resolveAddr p.libs pr.maps a).1 := by rw [hr]
+        have hl : libs = (resolveAddr p.libs (effMaps p.kmaps pr.maps a) a).1 := by rw [hr]
         split
         · rename_i sym _
           split
@@ -490,8 +490,8 @@ theorem P.frameSym_ext (p : P) (hg : StrInv p.gstrings) (t : Nat) (a : AddrSpec)
       split
       · exact Ext.refl p
       · rename_i pr _
-        have hra := resolveAddr_ext p.libs pr.maps a
-        generalize resolveAddr p.libs pr.maps a = ra at hra ⊢
+        have hra := resolveAddr_ext p.libs (effMaps p.kmaps pr.maps a) a
+        generalize resolveAddr p.libs (effMaps p.kmaps pr.maps a) a = ra at hra ⊢
         obtain ⟨libs, res⟩ := ra
         simp only at hra
         have rest : ∀ (res : AddrRes), Ext p
@@ -745,6 +745,12 @@ theorem step_ext (p : P) (hg : StrInv p.gstrings) (op : Op) : Ext p (step p op).
     · split
       · split <;> exact same _ rfl rfl rfl rfl
       · exact Ext.refl p
+  | addKernelMapping a b c d =>
+    simp only [step]
+    split
+    · split <;> exact same _ rfl rfl rfl rfl
+    · exact Ext.refl p
+  | removeKernelMapping a => exact same _ rfl rfl rfl rfl
   | removeMapping a b => simp only [step]; split <;> exact same _ rfl rfl rfl rfl
   | clearMappings a => simp only [step]; split <;> exact same _ rfl rfl rfl rfl
   | string s =>
